@@ -86,6 +86,11 @@ BRANCHES = [
     ("insert into s1.tgt with {X} as (select a1, a2 from s1.ta) select {X}.a1 as xa from {X} union all select b1 from s1.tb union all select {X}.a2 from {X}",
      {("s1.ta.a1", "s1.tgt.xa"), ("s1.tb.b1", "s1.tgt.xa"), ("s1.ta.a2", "s1.tgt.xa")}),
 ]
+# a table alias that is spelled like a CTE of the same statement which the FROM clause does not read (the alias wins)
+CTE_CLASH = [
+    ("with {X} as (select a1 from s1.ta) insert into s1.tgt select {A}.b1 as xa from s1.tb {A}", {("s1.tb.b1", "s1.tgt.xa")}),
+    ("with {X} as (select a1 from s1.ta) insert into s1.tgt select {A}.b1 as xa from s1.tb as {A}", {("s1.tb.b1", "s1.tgt.xa")}),
+]
 NOALIAS = [
     ("insert into s1.tgt select ta.a1 as xa from s1.ta union all select tb.b1 from s1.tb union all select ta.a2 from s1.ta",
      {("s1.ta.a1", "s1.tgt.xa"), ("s1.tb.b1", "s1.tgt.xa"), ("s1.ta.a2", "s1.tgt.xa")}),
@@ -103,6 +108,10 @@ def sibling_cases(pool):
     for k, (tpl, exp) in enumerate(BRANCHES):
         for x, y in itertools.permutations(["x", "y", "q1", "tb", "Xy"], 2):
             yield f"branches{k}/X={x},Y={y}", tpl.format(X=x, Y=y), exp
+    for k, (tpl, exp) in enumerate(CTE_CLASH):
+        for x in ("c", "q1", "Cte"):
+            for a in ("z", x, x.upper()):
+                yield f"cteclash{k}/X={x},A={a}", tpl.format(X=x, A=a), exp
     for k, (tpl, exp) in enumerate(NOALIAS):
         yield f"noalias{k}", tpl, exp
     for k, (tpl, exp) in enumerate(SIBLINGS):
